@@ -77,22 +77,38 @@ func replyCause(tx *ctx) string {
 	if tx == nil {
 		return "none"
 	}
-	texts := []string{tx.Final.text()}
+	finals := []reply{tx.Final}
 	for _, rc := range tx.Rcpts {
 		if rc.Final != nil {
-			texts = append(texts, rc.Final.text())
+			finals = append(finals, *rc.Final)
 		}
+	}
+	var texts []string
+	for _, f := range finals {
+		// go-smtp's reply after recovering a panic; maddy's own "Internal server error" carries a msg ID
+		if f.Code == 421 && strings.Contains(f.text(), "Internal server error") && !strings.Contains(f.text(), "msg ID") {
+			return "server-panic"
+		}
+		texts = append(texts, f.text())
 	}
 	all := strings.Join(texts, " ")
 	switch {
-	case strings.Contains(all, "Internal server error") && (tx.Final.Code == 421 || strings.Contains(all, "4.0.0")):
-		return "server-panic"
 	case strings.Contains(all, "Too many Received"):
 		return "routing-loop"
 	case strings.Contains(all, "size exceeds") || strings.Contains(all, "size exceeded") || strings.Contains(all, "Maximum message size"):
 		return "size-limit"
 	}
 	return "none"
+}
+
+func dupToken(tx *ctx, tok string) bool {
+	n := 0
+	for _, rc := range tx.Rcpts {
+		if rc.Token == tok && rc.Accepted {
+			n++
+		}
+	}
+	return n > 1
 }
 
 func termOf(tx *ctx) string {
@@ -116,7 +132,7 @@ func judge(r *rep.Reporter, c *rep.Case, sc *scenario, rg *rig, eng *engine, mar
 		tgtIdx[t.InstName] = i
 	}
 	startSeq := map[int]int{}
-	firstFailure := map[string]string{}
+	lastFailure := map[string]string{}
 	commitErr := map[string]bool{}
 	for _, e := range events {
 		if e.Kind == "start" {
@@ -124,9 +140,7 @@ func judge(r *rep.Reporter, c *rep.Case, sc *scenario, rg *rig, eng *engine, mar
 		}
 		if e.MsgID != "" {
 			if l := failureLabel(e); l != "" {
-				if _, ok := firstFailure[e.MsgID]; !ok {
-					firstFailure[e.MsgID] = l
-				}
+				lastFailure[e.MsgID] = l
 				if l == "commit@target" {
 					commitErr[e.MsgID] = true
 				}
@@ -194,11 +208,16 @@ func judge(r *rep.Reporter, c *rep.Case, sc *scenario, rg *rig, eng *engine, mar
 		}
 		return found, false
 	}
+	// cause class of a witness: what the replies say (panic, loop, size), else the
+	// last failing monitored call of that message
 	causeOf := func(msgID string, tx *ctx) string {
-		if l, ok := firstFailure[msgID]; ok {
+		if rc := replyCause(tx); rc != "none" {
+			return rc
+		}
+		if l, ok := lastFailure[msgID]; ok {
 			return l
 		}
-		return replyCause(tx)
+		return "none"
 	}
 
 	// ---- (a) closed exactly once by the end of the session, (b) no use after close ----
@@ -216,7 +235,7 @@ func judge(r *rep.Reporter, c *rep.Case, sc *scenario, rg *rig, eng *engine, mar
 			switch {
 			case strings.Contains(ts, "closed twice"):
 				what := strings.ReplaceAll(strings.TrimSuffix(ts, " (closed twice)"), " ", "-")
-				c.Violation(fmt.Sprintf("a/closed-twice/%s/%s/term=%s/first-failure=%s", what, proto, term, cause),
+				c.Violation(fmt.Sprintf("a/closed-twice/%s/%s/term=%s/cause=%s", what, proto, term, cause),
 					fmt.Sprintf("%s was finalised twice: %s", d.s.Target, ts), witness(map[string]any{"delivery": d.s.Delivery}))
 			case strings.HasSuffix(ts, "after Commit") || strings.HasSuffix(ts, "after Abort"):
 				c.Violation(fmt.Sprintf("b/use-after-close/%s/%s/term=%s", strings.ReplaceAll(ts, " ", "-"), proto, term),
@@ -227,7 +246,7 @@ func judge(r *rep.Reporter, c *rep.Case, sc *scenario, rg *rig, eng *engine, mar
 		}
 		if !d.closed() {
 			if ended {
-				c.Violation(fmt.Sprintf("a/unclosed-delivery/%s/term=%s/first-failure=%s", proto, term, cause),
+				c.Violation(fmt.Sprintf("a/unclosed-delivery/%s/term=%s/cause=%s", proto, term, cause),
 					fmt.Sprintf("delivery %d on %s (msg %s) was neither committed nor aborted although the session has ended", d.s.Delivery, d.s.Target, d.s.MsgID),
 					witness(map[string]any{"delivery": d.s.Delivery}))
 			}
@@ -290,6 +309,12 @@ func judge(r *rep.Reporter, c *rep.Case, sc *scenario, rg *rig, eng *engine, mar
 		case "per-rcpt":
 			for _, rc := range tx.Rcpts {
 				if rc.Accepted && !rc.Unmodelled && rc.Final != nil && rc.Final.ok() {
+					if dupToken(tx, rc.Token) {
+						// the same address given twice: the scripted target may answer the two
+						// instances differently, which the per-address summary cannot tell apart
+						r.Count("c_unjudged_lmtp_duplicate_recipient", 1)
+						continue
+					}
 					requireDelivered(tx, rc, "lmtp-success-not-committed")
 				}
 			}
@@ -325,7 +350,7 @@ func judge(r *rep.Reporter, c *rep.Case, sc *scenario, rg *rig, eng *engine, mar
 		switch tx.Outcome {
 		case "success", "unknown":
 		case "aborted":
-			c.Violation(fmt.Sprintf("d/committed-without-completion/%s/term=%s/first-failure=%s", proto, termOf(tx), cause),
+			c.Violation(fmt.Sprintf("d/committed-without-completion/%s/term=%s/cause=%s", proto, termOf(tx), cause),
 				fmt.Sprintf("message %s was committed to a target although the client never completed the transaction (it ended with %s)", msg, tx.Term),
 				witness(map[string]any{"msg_id": msg}))
 		case "failure":
@@ -333,7 +358,7 @@ func judge(r *rep.Reporter, c *rep.Case, sc *scenario, rg *rig, eng *engine, mar
 				r.Count("d_excluded_failure_at_commit_step", 1)
 				break
 			}
-			c.Violation(fmt.Sprintf("d/committed-but-refused/%s/term=%s/first-failure=%s", proto, termOf(tx), cause),
+			c.Violation(fmt.Sprintf("d/committed-but-refused/%s/term=%s/cause=%s", proto, termOf(tx), cause),
 				fmt.Sprintf("message %s was committed to a target although the transaction was answered with %s", msg, tx.Final),
 				witness(map[string]any{"msg_id": msg}))
 		case "per-rcpt":
@@ -351,7 +376,7 @@ func judge(r *rep.Reporter, c *rep.Case, sc *scenario, rg *rig, eng *engine, mar
 				}
 			}
 			if anyFinal && allFailed {
-				c.Violation(fmt.Sprintf("d/lmtp-committed-although-every-recipient-failed/first-failure=%s", cause),
+				c.Violation(fmt.Sprintf("d/lmtp-committed-although-every-recipient-failed/cause=%s", cause),
 					fmt.Sprintf("message %s: every recipient was answered with a failure, yet Commit was called on a target", msg),
 					witness(map[string]any{"msg_id": msg}))
 				break
@@ -361,7 +386,7 @@ func judge(r *rep.Reporter, c *rep.Case, sc *scenario, rg *rig, eng *engine, mar
 			for _, d := range group {
 				for tok := range d.tokens {
 					for _, rc := range recsByToken[tok] {
-						if seen[rc] || rc.Final == nil || !rc.Final.failed() || !rc.Accepted {
+						if seen[rc] || rc.Final == nil || !rc.Final.failed() || !rc.Accepted || dupToken(rc.tx, rc.Token) {
 							continue
 						}
 						seen[rc] = true
@@ -380,7 +405,7 @@ func judge(r *rep.Reporter, c *rep.Case, sc *scenario, rg *rig, eng *engine, mar
 						case delivered < len(ts):
 							r.Count("d_unjudged_lmtp_targets_disagree", 1)
 						default:
-							c.Violation(fmt.Sprintf("d/lmtp-recipient-refused-but-delivered/first-failure=%s", cause),
+							c.Violation(fmt.Sprintf("d/lmtp-recipient-refused-but-delivered/cause=%s", cause),
 								fmt.Sprintf("recipient <%s> was answered %s although every target serving it committed the message for it", rc.Raw, rc.Final),
 								witness(map[string]any{"recipient": rc}))
 						}
